@@ -96,6 +96,9 @@ class EstimationProvider:
         tuple[ArrayLike, ArrayLike]
             The estimated clp and residual.
         """
+        if matrix.shape[1] == 0:
+            # All clps are removed by constraints and relations, the residual is the data.
+            return np.zeros(0, dtype=np.float64), np.array(data, dtype=np.float64)
         return self._residual_function(matrix, data)
 
     def retrieve_clps(
